@@ -104,7 +104,7 @@ func genScan(w *out.W, tier string) {
 		sets []optSet
 	}{
 		{tokBegin, nt, mp}, {tokBegin, nt - 1, all}, {tokDelim, nt, gm}, {tokDelim, nt - 1, drv}, {tokHdr, nt, gp}, {tokHdr, nt - 1, drv},
-		{tokCmt, nt, gm}, {tokCmt, nt - 1, drv}, {tokMisc, nt - 1, all}, {tokGo, nt - 1, extra},
+		{tokCmt, nt, gm}, {tokCmt, nt - 1, drv}, {tokMisc, nt - 1, all}, {tokGo, nt - 1, extra}, {tokGo, nt, []optSet{byName["x-try"]}},
 	} {
 		words(fam.toks, fam.n, func(s string) {
 			for _, o := range fam.sets {
@@ -128,6 +128,15 @@ func genScan(w *out.W, tier string) {
 		}
 		rn.run("g", o, in)
 	}
+	// 4b. block openers/closers in random order (the same opener is reached by several enclosing
+	// scanners: what the table of failed block scans must not change)
+	nb := 6000
+	if thorough {
+		nb = 80000
+	}
+	for i := 0; i < nb; i++ {
+		rn.run("n", all[r.Intn(len(all))], genBlocks(r))
+	}
 	for i := 0; i < nm; i++ {
 		in := mutate(r, corpus[r.Intn(len(corpus))])
 		o := all[r.Intn(len(all))]
@@ -140,30 +149,26 @@ func genScan(w *out.W, tier string) {
 	probeNestedBegins(w, byName)
 }
 
-// probeNestedBegins measures the scanner on k unterminated BEGINs (oracle only; the model has
-// no notion of time): every BEGIN starts a nested scanner over the rest of the input and, when
-// that fails, the outer scanner goes on to the next BEGIN, so the work doubles with each one.
-// Termination is a theorem (C08_total) but 40 BEGINs (240 bytes) would take days.
+// probeNestedBegins times the scanner on k unterminated BEGINs (oracle only; the model has no
+// notion of time). Before fix C08-nested-begin every BEGIN re-scanned the rest of the input in
+// every enclosing scanner (2^k nested scans: x24 took 25 s); with the table of failed block
+// scans each block opener is scanned once (k scans of at most |input| bytes).
 func probeNestedBegins(w *out.W, byName map[string]optSet) {
-	for _, p := range []struct{ opts, word string }{{"sqlite", "BEGIN "}, {"generic", "BEGIN ATOMIC "}} {
+	for _, p := range []struct{ opts, word string }{{"sqlite", "BEGIN "}, {"generic", "BEGIN ATOMIC "}, {"postgres", "BEGIN ATOMIC BEGIN "}} {
 		o := byName[p.opts]
-		timeOf := func(k int) time.Duration {
-			in := strings.Repeat(p.word, k)
-			best := time.Duration(1 << 62)
-			for i := 0; i < 2; i++ {
-				if r := scanSafe(scanWith(o.o), in); r.dur < best {
-					best = r.dur
-				}
-			}
-			return best
-		}
-		t16, t20 := timeOf(16), timeOf(20)
+		const k = 60
+		in := strings.Repeat(p.word, k)
 		id := "p-" + p.opts
-		w.ImplOnly(id, fmt.Sprintf("%q x16: %s, x20: %s", p.word, t16, t20))
+		// under the watchdog: an exponential scanner does not come back from this input
+		slots[0].id.Store(id + " " + p.opts + " " + hx(in))
+		slots[0].start.Store(time.Now().UnixNano())
+		r := scanSafe(scanWith(o.o), in)
+		slots[0].start.Store(0)
+		w.ImplOnly(id, fmt.Sprintf("%q x%d: %s", p.word, k, r.dur))
 		w.Count("probe/nested-begins")
-		if t20 > 400*time.Millisecond && t20 > 6*t16 {
-			w.Violation(id, "superlinear-time", fmt.Sprintf("opts=%s: %q repeated 20 times (%d bytes) takes %s, 16 times %s (x%.1f for 4 more words): scan time doubles with every unterminated %s",
-				p.opts, p.word, 20*len(p.word), t20.Round(time.Millisecond), t16.Round(time.Millisecond), float64(t20)/float64(t16), strings.TrimSpace(p.word)))
+		if r.dur > 3*time.Second {
+			w.Violation(id, "superlinear-time", fmt.Sprintf("opts=%s: %q repeated %d times (%d bytes) takes %s: scan time explodes with the number of unterminated block openers",
+				p.opts, p.word, k, k*len(p.word), r.dur.Round(time.Millisecond)))
 		}
 	}
 }
@@ -317,6 +322,28 @@ func genBlock(r *rng.R, depth int, delim string) string {
 	}
 	if !r.Chance(1, 8) {
 		b.WriteString(rng.Pick(r, []string{"END", "end", "END ", "END\n", "END IF", "END TRY BEGIN CATCH x; END CATCH", "END CATCH"}))
+	}
+	return b.String()
+}
+
+var blockToks = []string{"BEGIN ", "BEGIN\n", "begin ", "BEGIN ATOMIC ", "BEGIN TRY ", "BEGIN CATCH ", "END", "END;", "END; ", "END\n", "END TRY ", "END CATCH", "END CATCH;", "END IF;",
+	"x;", "x; ", ";", " ", "\n", "(", ")", "'", "-- c\n", "/* c */", "$$", "DELIMITER //\n", "//", "-- atlas:delimiter $$\n", "y "}
+
+// genBlocks: 4..16 tokens, at most 9 block openers (the *model* re-scans exponentially).
+func genBlocks(r *rng.R) string {
+	var b strings.Builder
+	openers := 0
+	for n := 4 + r.Intn(13); n > 0; n-- {
+		t := rng.Pick(r, blockToks)
+		if r.Chance(1, 2) {
+			t = blockToks[r.Intn(14)]
+		}
+		if strings.HasPrefix(strings.ToUpper(t), "BEGIN") {
+			if openers++; openers > 9 {
+				continue
+			}
+		}
+		b.WriteString(t)
 	}
 	return b.String()
 }
